@@ -6,9 +6,11 @@ class C25(Spec):
     drv = "drv_c25"
     harness = "h_c25"
     required_theorems = ("C25.connect_disconnect_inverse", "C25.reorg_lands", "C25.persisted_is_view",
-                         "C25.tip_is_max", "C25.tie_keeps_tip", "C25.accepted_closure", "C25.order_independent")
+                         "C25.tip_is_max", "C25.tie_keeps_tip", "C25.accepted_closure", "C25.order_independent",
+                         "C25X.order_independent_events", "C25X.noPoolBound_false", "C25X.noTimeBound_false",
+                         "C25X.finalFinSuffices_false")
     partial = ()
-    refuted = ()
+    refuted = ("C25X.noPoolBound_false", "C25X.noTimeBound_false", "C25X.finalFinSuffices_false")
     quick_timeout = 600
     thorough_timeout = 3600
     level_text = ("Lean theorems about the model of ProcessBlock / orphan pool / connectBestChain / reorganizeChain: for EVERY "
@@ -20,15 +22,20 @@ class C25(Spec):
                   "testnode, delivered in generated orders to fresh non-mining testnodes; results, tip, height->hash, TDs, "
                   "orphan pool, tx lookups, sequence log compared with the Lean driver; the property predicate (tip = unique "
                   "heaviest eligible branch; persisted chain = fresh node fed the winning branch) evaluated on the implementation.")
-    level_note = ("all delivered blocks are valid (execution succeeds); index/orphan cache limits, orphan expiry, restart, "
-                  "EnableBestBlockCmp and a finaliser moving up during the run are outside the model (the model's downward "
-                  "reset is covered); finalised height 0 (no finaliser configured) in the tie; the tx index is modelled as "
-                  "tx hash -> height (TxResult index/receipt, address indexes and the state read at the tip are compared "
-                  "on the implementation only: fresh-node snapshot).")
+    level_note = ("all delivered blocks are valid (execution succeeds). Extension layer (Model/C25Ext): moving finaliser "
+                  "(snowmanAcceptBlock + downward reset), orphan pool limit/expiry (AddOrphanBlock incl. the stale "
+                  "oldestOrphan pointer), clock, restart - tied on the real node (finaliser driven by EventSnowmanAcceptBlk, "
+                  "clock by types.VerifSetTimeDelta, maxOrphanBlocks/orphanExpirationTime read from orphanpool.go). "
+                  "order_independent_events needs: |tree| <= maxOrphanBlocks, run shorter than the orphan expiry, no "
+                  "restart, margin measured against the HIGHEST finalised height of the run - each shown necessary by a "
+                  "refuting witness (noPoolBound_false, noTimeBound_false, finalFinSuffices_false). Index/best-chain cache "
+                  "limits (102400/10240), EnableBestBlockCmp are outside the model; TxResult index/receipts, address "
+                  "indexes and the state at the tip are compared on the implementation only.")
     assumptions = (
         "delivered blocks are valid and execute successfully (invalid blocks are C27)",
-        "index cache (102400), best-chain cache (10240), orphan pool limit (10240) and orphan expiry (10 min) are not reached",
-        "no restart between deliveries; EnableBestBlockCmp off; finalised height fixed",
+        "index cache (102400) and best-chain cache / InitBlockNum (10240) are not reached",
+        "convergence: tree no larger than maxOrphanBlocks, run shorter than orphanExpirationTime, no restart (explicit hypotheses, witnesses show they are needed)",
+        "EnableBestBlockCmp off; orphans arrive at strictly increasing clock readings",
         "difficulty.CalcWork behaves as C20.calcWork (tied by C20)",
     )
 
